@@ -264,6 +264,49 @@ func runParent(prop string, cg caseGen, seed uint64, tier string, w *bufio.Write
 	for range chunks {
 		<-done
 	}
+	// dastard has wall-clock watchdogs that panic on purpose when its real-time reader loops are not scheduled for
+	// seconds (Lancero "too long since last succesful read", the Abaco block assembler's "timeout, no data", the
+	// Lancero card's WaitForError).  When the machine is overloaded (several thorough checks in parallel) they fire
+	// although nothing is wrong with the code.  A case that ended in one of them is run again, ALONE and after all
+	// other cases have finished, up to two times; a genuine wedge is deterministic and panics again.
+	starved := []string{" OUT PANIC other:too_long_since_last_succesful_read", " OUT PANIC other:timeout,_no_data_from_Abaco",
+		" OUT PANIC other:error_with_WaitForError"}
+	for ri, r := range results {
+		lines := strings.SplitAfter(string(r), "\n")
+		changed := false
+		for li, ln := range lines {
+			hit := false
+			for _, s := range starved {
+				if strings.Contains(ln, s) {
+					hit = true
+				}
+			}
+			if !hit {
+				continue
+			}
+			f := strings.Fields(ln)
+			if len(f) < 2 {
+				continue
+			}
+			var id int
+			fmt.Sscan(f[1], &id)
+			for try := 0; try < 2; try++ {
+				one := exec.Command(self, "-child", "-seed", fmt.Sprint(seed), "-tier", tier,
+					"-from", fmt.Sprint(id), "-to", fmt.Sprint(id+1), prop)
+				var so1 bytes.Buffer
+				one.Stdout = &so1
+				if err := one.Run(); err == nil && strings.HasSuffix(so1.String(), "\n") && strings.Count(so1.String(), "\n") == 1 {
+					fmt.Fprintf(os.Stderr, "case %d: watchdog panic under load, re-run alone completed\n", id)
+					lines[li] = so1.String()
+					changed = true
+					break
+				}
+			}
+		}
+		if changed {
+			results[ri] = []byte(strings.Join(lines, ""))
+		}
+	}
 	for _, r := range results {
 		w.Write(r)
 	}
